@@ -94,6 +94,7 @@ type c07Map interface {
 	length() int
 	items() []string // "key=valueid", sorted; nil if the type has no enumeration
 	digest() string
+	str() string // the type's String() method ("" if it has none): a read-only operation
 }
 
 type c07Int struct{ m *strmap.StrMap[int] }
@@ -139,6 +140,7 @@ func (x c07Int) items() []string {
 	return r
 }
 func (x c07Int) digest() string { return x.m.VerifDigest() }
+func (x c07Int) str() string    { return x.m.String() }
 
 type c07St struct{ m *strmap.StrMap[c07Struct] }
 
@@ -186,8 +188,11 @@ func (x c07St) items() []string {
 	return r
 }
 func (x c07St) digest() string { return x.m.VerifDigest() }
+func (x c07St) str() string    { return x.m.String() }
 
 type c07S2S struct{ m *strmap.Str2Str }
+
+var s2sBacking = strings.Repeat("GET /index.html?long-value-", 12)
 
 func s2sVal(id int) string {
 	if id%100 == 3 { // longer than 65535 bytes (the store keeps a 4-byte length)
@@ -197,9 +202,9 @@ func s2sVal(id int) string {
 	case 0:
 		return ""
 	case 1:
-		return fmt.Sprintf("v%d", id)
+		return s2sBacking[:3+id%5] // neighbours 1 and 2 are prefixes of ONE backing string: same data pointer, different lengths
 	case 2:
-		return strings.Repeat("long-value-", 30) + fmt.Sprint(id)
+		return s2sBacking[:40+id%9]
 	}
 	return "shared"
 }
@@ -234,6 +239,7 @@ func (x c07S2S) getStr(k string) (string, bool) { return x.m.Get(k) }
 func (x c07S2S) length() int                    { return x.m.Len() }
 func (x c07S2S) items() []string                { return nil }
 func (x c07S2S) digest() string                 { return x.m.VerifInner().VerifDigest() }
+func (x c07S2S) str() string                    { return fmt.Sprint(x.m.VerifInner()) }
 
 func c07New(kind string) c07Map {
 	switch kind {
@@ -299,6 +305,10 @@ func c07Hist(c *mc.Ctx, k c07Case, _ func(slots int) []int) {
 				}
 			}
 			d0 := m.digest()
+			if txt := m.str(); len(model) > 0 && len(txt) < 2 {
+				bad("string", "%s: String() returned %q for a map of %d keys", when, txt, len(model))
+				return false
+			}
 			for _, p := range c07Keys {
 				id, present := model[p]
 				var alts []int
@@ -334,7 +344,7 @@ func c07Hist(c *mc.Ctx, k c07Case, _ func(slots int) []int) {
 				}
 			}
 			if d1 := m.digest(); d1 != d0 {
-				bad("get-writes", "%s: Get modified the map's private state (digest %s -> %s); concurrent readers would race", when, d0, d1)
+				bad("get-writes", "%s: a read-only operation (String, Get) modified the map's private state (digest %s -> %s); later answers and concurrent readers are affected", when, d0, d1)
 				return false
 			}
 			return true
